@@ -864,3 +864,76 @@ Proof.
   eapply Permutation_NoDup in Ha; [|apply Permutation_map; exact P2].
   rewrite !map_app in Ha. do 4 apply NoDup_app_r in Ha. auto.
 Qed.
+
+(* ------------------------------------------------------------------ reply subjects *)
+Definition wr (m : msg) : Prop := has_reply m = true.
+Definition Tg (s : st) : Prop :=
+  Forall (fun m => has_reply m = false) (noreply (g s))
+  /\ Forall wr (workc s)
+  /\ Forall (fun x => Forall wr (worker_msgs x)) (workers s)
+  /\ Forall wr (startedl (g s))
+  /\ Forall wr (finished (g s)).
+
+Lemma Tg_init n w q : Tg (init n w q).
+Proof.
+  unfold Tg, init; cbn. repeat split; auto. apply Forall_repeat. cbn. auto.
+Qed.
+
+Lemma Tg_step s e s' : Tg s -> step s e = Some s' -> Tg s'.
+Proof.
+  intros (T1 & T2 & T3 & T4 & T5) Hs. unfold step in Hs. destruct (crashed s); try discriminate.
+  destruct e;
+  unfold step_arrive, step_pop, step_drop, step_enq, step_take, step_start, step_done, step_exit,
+         step_drainsub, step_brokerunsub, step_checkdrained, step_barrier in Hs;
+  dmatch; inv_some; idxh; boolh; unfold Tg; cbn; splits; auto;
+  try (apply Forall_app; split; auto);
+  try (apply Forall_upd; auto; cbn; auto);
+  try match goal with H : nth_error (workers _) _ = Some _ |- _ =>
+        pose proof (Forall_nth_error _ _ _ _ T3 H) as Hwm; cbn in Hwm; try (inversion Hwm; subst; clear Hwm) end;
+  try (inversion T2; subst; auto; fail);
+  try (repeat constructor; unfold wr; auto; fail).
+  all: try (rewrite Heql in T2; inversion T2; subst; auto; repeat constructor; auto).
+  all: try (rewrite Heql; constructor).
+Qed.
+
+Lemma run_Tg evs : forall s s', Tg s -> run s evs = Some s' -> Tg s'.
+Proof.
+  induction evs as [|e r IH]; intros s s' HT Hr; cbn in Hr.
+  - injection Hr as <-. auto.
+  - destruct (step s e) as [s1|] eqn:Hs; try discriminate. apply (IH s1); auto. eapply Tg_step; eauto.
+Qed.
+
+Lemma reachable_Tg n w q s : reachable n w q s -> Tg s.
+Proof. intros [evs Hr]. eapply run_Tg; eauto. apply Tg_init. Qed.
+
+Lemma perm_filter {A} (p : A -> bool) l1 l2 : Permutation l1 l2 -> Permutation (filter p l1) (filter p l2).
+Proof.
+  induction 1; cbn; auto.
+  - destruct (p x); auto.
+  - destruct (p x), (p y); auto. constructor.
+  - eapply Permutation_trans; eauto.
+Qed.
+
+Lemma filter_all {A} (p : A -> bool) l : Forall (fun a => p a = true) l -> filter p l = l.
+Proof. induction 1 as [|a t Ha Ht IH]; cbn; auto. rewrite Ha, IH. auto. Qed.
+
+Lemma filter_none {A} (p : A -> bool) l : Forall (fun a => p a = false) l -> filter p l = [].
+Proof. induction 1 as [|a t Ha Ht IH]; cbn; auto. rewrite Ha. auto. Qed.
+
+(** when Serve has returned: the accepted requests that carry a reply subject are exactly the
+    processed ones (as multisets: each exactly once); those without were discarded *)
+Lemma returned_by_reply n w q s : reachable n w q s -> 1 <= w -> serve s = SReturned ->
+  Permutation (filter has_reply (accepted (g s))) (finished (g s))
+  /\ Permutation (filter (fun m => negb (has_reply m)) (accepted (g s))) (noreply (g s)).
+Proof.
+  intros Hr Hw Hsv. destruct (returned_all_done _ _ _ _ Hr Hw Hsv) as (_ & P & _).
+  destruct (reachable_Tg _ _ _ _ Hr) as (T1 & _ & _ & _ & T5).
+  split.
+  - eapply Permutation_trans; [apply perm_filter; exact P|]. rewrite filter_app.
+    rewrite (filter_none has_reply), (filter_all has_reply); auto.
+  - eapply Permutation_trans; [apply perm_filter; exact P|]. rewrite filter_app.
+    rewrite (filter_all (fun m => negb (has_reply m)) (noreply (g s))), (filter_none (fun m => negb (has_reply m)) (finished (g s))).
+    + rewrite app_nil_r. auto.
+    + eapply Forall_impl; [|exact T5]. intros a Ha. unfold wr in Ha. rewrite Ha. auto.
+    + eapply Forall_impl; [|exact T1]. intros a Ha. rewrite Ha. auto.
+Qed.
